@@ -6,6 +6,9 @@ import AY.Driver.Codec
 import AY.Driver.OpsC17
 import AY.Driver.OpsC20
 import AY.Driver.OpsC06
+import AY.Driver.OpsC19
+import AY.Driver.OpsC18
+import AY.Driver.OpsC12
 open Lean AY AY.Codec
 
 def parseDocs (j : Json) : Except String (List (Env × Raw)) :=
@@ -98,6 +101,9 @@ def dispatch (j : Json) : Json :=
   | .ok (.str "c20") => opC20 j
   | .ok (.str "c06") => AY.OpsC06.opC06 j
   | .ok (.str "c06path") => AY.OpsC06.opC06Path j
+  | .ok (.str "c19") => AY.OpsC19.opC19 j
+  | .ok (.str "c18") => AY.OpsC18.opC18 j
+  | .ok (.str "c12") => AY.opC12 j
   | _ => Json.mkObj [("bad", .str "unknown op")]
 
 partial def loop (h : IO.FS.Stream) (out : IO.FS.Stream) : IO Unit := do
